@@ -297,6 +297,8 @@ pub const C10: ConcCheck = ConcCheck {
 pub const C10L: ConcCheck = ConcCheck { sub: "resize-long", mix: Mix::Long, max_threads: 8, max_ops: 16, ..C10 };
 pub const C10H: ConcCheck = ConcCheck { sub: "resize-helpers", mix: Mix::Helpers, max_threads: 4, max_ops: 3, ..C10 };
 pub const C10T: ConcCheck = ConcCheck { sub: "resize-treemove", mix: Mix::TreeMove, max_threads: 3, max_ops: 3, ..C10 };
+/// the first table: lazy initialisation racing `reserve`, inserts and the first resizes
+pub const C10F: ConcCheck = ConcCheck { sub: "resize-first", mix: Mix::FirstOps, max_threads: 4, max_ops: 3, ..C10 };
 
 #[derive(Clone, Debug, Serialize, Deserialize)]
 struct StampCase {
@@ -356,6 +358,7 @@ fn c10_shard(ctx: &Ctx, out: &mut ShardOut) {
     C10L.run(ctx, &pool, 18, ctx.share(ctx.by_tier(160, 4_000)) as u32, &lb, out);
     C10H.run(ctx, &pool, 19, ctx.share(ctx.by_tier(160, 3_000)) as u32, &super::concchecks::helpers_budget(ctx.tier, ctx.shard_seed(97)), out);
     C10T.run(ctx, &pool, 20, ctx.share(ctx.by_tier(128, 2_000)) as u32, &b, out);
+    C10F.run(ctx, &pool, 21, ctx.share(ctx.by_tier(200, 3_000)) as u32, &b, out);
     // sequential part: growth happens, exactly doubling, threshold 0.75 n afterwards
     let or = crate::seq::Oracles { growth: true, quiescent: true, ..Default::default() };
     drive(ctx, "seq-growth", ctx.shard_seed(16), ctx.share(ctx.by_tier(1500, 40_000)) as u32, seq_case_strategy(false, 120), out, |c| {
@@ -379,6 +382,7 @@ fn c10_replay(sub: &str, case: &Value) -> Result<(), CaseFail> {
         "resize-long" => C10L.replay(&Pool::new(), case, &Budget { single: 0, double: 0, coarse2: 0, tapes: 200, tape_seed: 1, triple: 0, stagger: 0 }),
         "resize-helpers" => C10H.replay(&Pool::new(), case, &super::concchecks::helpers_budget(Tier::Thorough, 1)),
         "resize-treemove" => C10T.replay(&Pool::new(), case, &budget_for(Tier::Thorough, 1)),
+        "resize-first" => C10F.replay(&Pool::new(), case, &budget_for(Tier::Thorough, 1)),
         "stamps" => check_stamps().map(|_| ()).map_err(|m| CaseFail { prop: "C10".into(), msg: format!("[C10] {}", m) }),
         "seq-growth" => {
             let c: SeqCase = serde_json::from_value(case.clone()).map_err(|e| CaseFail { prop: "C10".into(), msg: format!("bad replay file: {}", e) })?;
@@ -598,7 +602,9 @@ fn c07_judge(prog: &Prog, out: &ConcOut) -> Result<(bool, Vec<(&'static str, u64
     let mut overlapped_migration = false;
     for it in &out.recs.iters {
         let y: Vec<(u32, u64, u64)> = it.yields.iter().map(|(t, _, v, s)| (*t, *v, *s)).collect();
-        judge_iteration(out, &lives, it.kind, it.created, it.end, &y, &format!("the iteration (kind {}) of T{} over steps {}..{}", it.kind, it.thread, it.created, it.end)).map_err(|m| ("C07".to_string(), format!("[C07] {}", m)))?;
+        // a serialisation (kinds 3..) is judged like a traversal of the keys
+        let (kind, what) = if it.kind >= 3 { (1, "serialisation") } else { (it.kind, "iteration") };
+        judge_iteration(out, &lives, kind, it.created, it.end, &y, &format!("the {} (kind {}) of T{} over steps {}..{}", what, it.kind, it.thread, it.created, it.end)).map_err(|m| ("C07".to_string(), format!("[C07] {}", m)))?;
         overlapped_migration |= out.events.iter().any(|e| matches!(e, Ev::Site { kind, step, .. } if *kind == flurry::verif::EV_BIN_MOVED && *step >= it.created && *step <= it.end));
     }
     let tr = out.tree_bins_after != out.tree_bins_before;
@@ -607,6 +613,41 @@ fn c07_judge(prog: &Prog, out: &ConcOut) -> Result<(bool, Vec<(&'static str, u64
     c.push(("schedules_where_an_iteration_overlapped_a_bin_migration", overlapped_migration as u64));
     c.push(("schedules_crossing_tree_conversion", tr as u64));
     Ok((overlapped_migration || tr || probes_in_transfer > 0, c))
+}
+
+/// C19 under concurrency: a map serialised (JSON text re-read keeping duplicates; a format that
+/// trusts the announced length) while other threads update it must give a well-formed document
+/// whose entries are a weakly consistent selection of the map's (judged like a traversal of keys)
+fn c19s_judge(_prog: &Prog, out: &ConcOut) -> Result<(bool, Vec<(&'static str, u64)>), JudgeErr> {
+    base_judge("C19", out)?;
+    let lives = lifetimes(out);
+    let mut overlapped = false;
+    let mut sers = 0u64;
+    for it in out.recs.iters.iter().filter(|it| it.kind >= 3) {
+        sers += 1;
+        let y: Vec<(u32, u64, u64)> = it.yields.iter().map(|(t, _, v, s)| (*t, *v, *s)).collect();
+        judge_iteration(out, &lives, 1, it.created, it.end, &y, &format!("the serialisation (kind {}) by T{} over steps {}..{}", it.kind, it.thread, it.created, it.end)).map_err(|m| ("C19".to_string(), format!("[C19] {}", m)))?;
+        overlapped |= out.recs.ops.iter().any(|e| e.thread != it.thread && crate::lin::is_write(&e.op) && e.inv < it.end && e.resp > it.created);
+    }
+    Ok((overlapped, vec![("serialisations_of_a_map_under_update", sers), ("schedules_where_a_serialisation_overlapped_an_update", overlapped as u64)]))
+}
+pub const C19S: ConcCheck = ConcCheck { asked: "C19", sub: "ser-conc", mix: Mix::Readers, max_threads: 3, max_ops: 3, opts: ExecOpts::DEFAULT, judge: c19s_judge, mk_probe: NO_PROBE };
+pub const C19F: ConcCheck = ConcCheck { sub: "ser-first", mix: Mix::FirstOps, max_threads: 4, ..C19S };
+pub const C19R: ConcCheck = ConcCheck { sub: "ser-resize", mix: Mix::IterResize, ..C19S };
+pub fn c19_conc_run(ctx: &Ctx, out: &mut ShardOut) {
+    let pool = Pool::new();
+    let b = budget_for(ctx.tier, ctx.shard_seed(71));
+    C19S.run(ctx, &pool, 71, ctx.share(ctx.by_tier(200, 4_000)) as u32, &b, out);
+    C19F.run(ctx, &pool, 72, ctx.share(ctx.by_tier(160, 3_000)) as u32, &b, out);
+    C19R.run(ctx, &pool, 73, ctx.share(ctx.by_tier(96, 2_000)) as u32, &b, out);
+}
+pub fn c19_conc_replay(sub: &str, case: &Value) -> Result<(), CaseFail> {
+    let b = budget_for(Tier::Thorough, 1);
+    match sub {
+        "ser-first" => C19F.replay(&Pool::new(), case, &b),
+        "ser-resize" => C19R.replay(&Pool::new(), case, &b),
+        _ => C19S.replay(&Pool::new(), case, &b),
+    }
 }
 
 /// (b) an iterating thread among writers
